@@ -14,18 +14,24 @@ EXTENDS Cyclo, Json, IOUtils, FiniteSets
 CONSTANT NTRACES
 Traces == JsonDeserialize(IOEnv.TRACE_FILE)
 VARIABLES tid, done
-Kmax(t) == LET S[i \in 0..Len(t.f)] == IF i = 0 THEN 0 ELSE IF t.f[i].k > S[i-1] THEN t.f[i].k ELSE S[i-1] IN S[Len(t.f)]
-\* N * 2^K * c_k as a ring element
-Coef(t, k) == LET K == Kmax(t)
-                  S[a \in 0..N] == IF a = 0 THEN Zero ELSE
-                       Add(S[a-1], MulZeta(Scale(2^(K - t.f[a].k), t.f[a].c), -(k * (a-1)))) IN S[N]
+\* TLC re-evaluates LET definitions and operator arguments at every reference: everything below is bound to a value once.
+BindF(v, F(_)) == CHOOSE r \in {F(x) : x \in {v}} : TRUE
+\* S[i-1] is bound once per level: referencing it twice made the recursion cost 2^N evaluations (N = 32 never finished)
+Kmax(t) == LET S[i \in 0..Len(t.f)] == IF i = 0 THEN 0 ELSE LET p == S[i-1]  v == t.f[i].k IN IF v > p THEN v ELSE p IN S[Len(t.f)]
+\* the samples on the common denominator 2^K, as a sequence of ring elements (evaluated once per trace)
+Scaled(t, K) == TLCEval([a \in 1..N |-> TLCEval(Scale(2^(K - t.f[a].k), t.f[a].c))])
+\* N * 2^K * c_k as a ring element: a left fold, each partial sum forced to a value
+RECURSIVE FoldC(_, _, _, _)
+FoldC(g, k, a, acc) == IF a > N THEN acc ELSE FoldC(g, k, a + 1, TLCEval(Add(acc, MulZeta(g[a], -(k * (a-1))))))
+Coef(g, k) == FoldC(g, k, 1, Zero)
 Signed(k) == IF k > N \div 2 THEN k - N ELSE k
 Abs(x) == IF x < 0 THEN -x ELSE x
-Support(t) == {Abs(Signed(k)) : k \in {kk \in 0..N-1 : ~IsZero(Coef(t, kk))}}
+SupportG(g) == {Abs(Signed(k)) : k \in {kk \in 0..N-1 : ~IsZero(Coef(g, kk))}}
+Support(t) == BindF(Kmax(t), LAMBDA K : BindF(Scaled(t, K), LAMBDA g : SupportG(g)))
 Declared(t) == {t.decl[i] : i \in 1..Len(t.decl)} \cup {0}
-Verdict(t) == IF Len(t.f) # N THEN "bad-trace"
-              ELSE IF Support(t) \subseteq Declared(t) THEN "ok" ELSE "undeclared-frequency"
+VerdictS(t, sup) == IF sup \subseteq Declared(t) THEN "ok" ELSE "undeclared-frequency"
 Init == tid \in 1..NTRACES /\ done = FALSE
 Next == ~done /\ done' = TRUE /\ UNCHANGED tid
-        /\ PrintT(<<"V", tid, Verdict(Traces[tid]), Cardinality(Support(Traces[tid]) \ {0})>>)
+        /\ IF Len(Traces[tid].f) # N THEN PrintT(<<"V", tid, "bad-trace", 0>>)
+           ELSE BindF(Support(Traces[tid]), LAMBDA sup : PrintT(<<"V", tid, VerdictS(Traces[tid], sup), Cardinality(sup \ {0})>>))
 =============================================================================
